@@ -188,7 +188,36 @@ type Wrap[T any] struct {
 	Blk T `hcl:"blk,block"`
 }
 
+// Emb / EmbL: structs that embed an untagged struct (and carry an untagged
+// field) in front of, between and behind their tagged fields. gohcl reads only
+// the struct's own tagged fields, by field index; untagged and promoted
+// fields are not part of the schema and stay zero.
+type Base struct {
+	ID   int
+	Note string
+}
+type Tail struct {
+	Extra []string
+}
+type Emb struct {
+	Base
+	Name  string `hcl:"name"`
+	Local int
+	N     int  `hcl:"n,optional"`
+	Blks  []L1 `hcl:"blk,block"`
+	Tail
+	Z string `hcl:"z,optional"`
+}
+type EmbL struct {
+	Base
+	K string `hcl:"k,label"`
+	Tail
+	X string `hcl:"x,optional"`
+}
+
 var types = map[string]reflect.Type{
+	"Emb":     reflect.TypeOf(Emb{}),
+	"HE":      reflect.TypeOf(Holder[EmbL]{}),
 	"Strs":    reflect.TypeOf(Strs{}),
 	"Nums":    reflect.TypeOf(Nums{}),
 	"Opts":    reflect.TypeOf(Opts{}),
